@@ -222,12 +222,47 @@ func drawU(t *rapid.T, c *mont.Curve, label string) ([]byte, string) {
 // ---------------------------------------------------------------------------
 // calling circl
 
-func circlShared(c *mont.Curve, k, u []byte) (out []byte, ok bool) {
+// Output-buffer modes: the result must not depend on what the output buffer
+// held before the call, and the API allows the output to alias an input.
+const (
+	outGarbage     = iota // separate buffer pre-filled with drawn garbage
+	outOnes               // separate buffer pre-filled with 0xff
+	outAliasPublic        // shared == public
+	outAliasSecret        // shared == secret
+	outModes
+)
+
+var outModeName = []string{"prefilled-garbage", "prefilled-ones", "alias-public", "alias-secret"}
+
+func fill(dst []byte, mode int, garbage []byte) {
+	if mode == outOnes {
+		for i := range dst {
+			dst[i] = 0xff
+		}
+		return
+	}
+	copy(dst, garbage)
+}
+
+// circlShared calls Shared with the output buffer arranged as mode says.
+func circlShared(c *mont.Curve, k, u []byte, mode int, garbage []byte) (out []byte, ok bool) {
 	if c.Bits == 255 {
 		var s, kk, uu x25519.Key
 		copy(kk[:], k)
 		copy(uu[:], u)
-		ok = x25519.Shared(&s, &kk, &uu)
+		fill(s[:], mode, garbage)
+		switch mode {
+		case outAliasPublic:
+			ok = x25519.Shared(&uu, &kk, &uu)
+			s = uu
+			copy(uu[:], u)
+		case outAliasSecret:
+			ok = x25519.Shared(&kk, &kk, &uu)
+			s = kk
+			copy(kk[:], k)
+		default:
+			ok = x25519.Shared(&s, &kk, &uu)
+		}
 		if !bytes.Equal(kk[:], k) || !bytes.Equal(uu[:], u) {
 			panic("inputs modified")
 		}
@@ -236,23 +271,52 @@ func circlShared(c *mont.Curve, k, u []byte) (out []byte, ok bool) {
 	var s, kk, uu x448.Key
 	copy(kk[:], k)
 	copy(uu[:], u)
-	ok = x448.Shared(&s, &kk, &uu)
+	fill(s[:], mode, garbage)
+	switch mode {
+	case outAliasPublic:
+		ok = x448.Shared(&uu, &kk, &uu)
+		s = uu
+		copy(uu[:], u)
+	case outAliasSecret:
+		ok = x448.Shared(&kk, &kk, &uu)
+		s = kk
+		copy(kk[:], k)
+	default:
+		ok = x448.Shared(&s, &kk, &uu)
+	}
 	if !bytes.Equal(kk[:], k) || !bytes.Equal(uu[:], u) {
 		panic("inputs modified")
 	}
 	return s[:], ok
 }
 
-func circlKeyGen(c *mont.Curve, k []byte) []byte {
+// circlKeyGen calls KeyGen into a pre-filled buffer, or in place (public == secret).
+func circlKeyGen(c *mont.Curve, k []byte, mode int, garbage []byte) []byte {
 	if c.Bits == 255 {
 		var p, kk x25519.Key
 		copy(kk[:], k)
+		fill(p[:], mode, garbage)
+		if mode == outAliasSecret {
+			x25519.KeyGen(&kk, &kk)
+			return kk[:]
+		}
 		x25519.KeyGen(&p, &kk)
+		if !bytes.Equal(kk[:], k) {
+			panic("inputs modified")
+		}
 		return p[:]
 	}
 	var p, kk x448.Key
 	copy(kk[:], k)
+	fill(p[:], mode, garbage)
+	if mode == outAliasSecret {
+		x448.KeyGen(&kk, &kk)
+		return kk[:]
+	}
 	x448.KeyGen(&p, &kk)
+	if !bytes.Equal(kk[:], k) {
+		panic("inputs modified")
+	}
 	return p[:]
 }
 
@@ -263,9 +327,15 @@ func sharedCase(t *rapid.T, c *mont.Curve) {
 	vlib.Eval(sub)
 	vlib.Class(sub, "k="+kk)
 	vlib.Class(sub, "u="+uk)
+	mode := pick(t, outModes, "outmode")
+	garbage := make([]byte, c.Size)
+	vlib.FillRandom(t, garbage, "garbage")
+	vlib.Class(sub, "out="+outModeName[mode])
 	want := c.X(k, u)
-	got, ok := circlShared(c, k, u)
-	in := func() string { return fmt.Sprintf("k=%x (%s) u=%x (%s)", k, kk, u, uk) }
+	got, ok := circlShared(c, k, u, mode, garbage)
+	in := func() string {
+		return fmt.Sprintf("k=%x (%s) u=%x (%s) output buffer: %s (%x)", k, kk, u, uk, outModeName[mode], garbage)
+	}
 	if !bytes.Equal(got, want) {
 		if vlib.Report(t, "C06/shared/"+c.Name+"/output-differs-from-RFC7748", fmt.Sprintf("%s circl=%x reference=%x flag=%v", in(), got, want, ok)) {
 			return
@@ -293,7 +363,7 @@ func sharedCase(t *rapid.T, c *mont.Curve) {
 		vlib.Class(sub, "u-noncanonical")
 	}
 	// key generation == the function at the base point
-	pub := circlKeyGen(c, k)
+	pub := circlKeyGen(c, k, mode, garbage)
 	wantPub := c.XBase(k)
 	if !bytes.Equal(pub, wantPub) {
 		if vlib.Report(t, "C06/keygen/"+c.Name+"/differs-from-RFC7748", fmt.Sprintf("k=%x (%s) circl=%x reference=%x", k, kk, pub, wantPub)) {
@@ -321,9 +391,9 @@ func sharedCase(t *rapid.T, c *mont.Curve) {
 	}
 	// both parties agree (second scalar)
 	k2, _ := drawScalar(t, c, "k2")
-	pub2 := circlKeyGen(c, k2)
-	s1, ok1 := circlShared(c, k, pub2)
-	s2, ok2 := circlShared(c, k2, pub)
+	pub2 := circlKeyGen(c, k2, outGarbage, garbage)
+	s1, ok1 := circlShared(c, k, pub2, outGarbage, garbage)
+	s2, ok2 := circlShared(c, k2, pub, mode, garbage)
 	if !bytes.Equal(s1, s2) || !ok1 || !ok2 {
 		if vlib.Report(t, "C06/agreement/"+c.Name, fmt.Sprintf("kA=%x kB=%x A's secret=%x (%v) B's secret=%x (%v)", k, k2, s1, ok1, s2, ok2)) {
 			return
